@@ -80,6 +80,7 @@ func runImpl(lines []string) []string {
 	if im.S != nil {
 		im.S.Close()
 	}
+	im.Cleanup()
 	return out
 }
 
@@ -182,7 +183,7 @@ func amplify(prefix []string, rng *rand.Rand, tries int) []string {
 				case 0, 1, 2:
 					g.write(rng)
 				case 3:
-					for g.applyOne(rng) {
+					for k := 0; k < 64 && g.applyOne(rng); k++ {
 					}
 				case 4:
 					g.snapN++
